@@ -97,6 +97,21 @@ theorem Rel.trans {a b c : NodeCtx} (h1 : Rel a b) (h2 : Rel b c) : Rel a c := b
   unfold Rel at *
   rw [h2]; rw [h1]
 
+/-- what the mark bookkeeping never touches -/
+structure Stable (cx cx' : NodeCtx) : Prop where
+  attrs : cx'.attrs = cx.attrs
+  marks : cx'.marks = cx.marks
+  opts : cx'.opts = cx.opts
+  uid : cx'.uid = cx.uid
+
+theorem Stable.refl (cx : NodeCtx) : Stable cx cx := ⟨rfl, rfl, rfl, rfl⟩
+theorem Stable.trans {a b c : NodeCtx} (h1 : Stable a b) (h2 : Stable b c) : Stable a c :=
+  ⟨h2.attrs.trans h1.attrs, h2.marks.trans h1.marks, h2.opts.trans h1.opts, h2.uid.trans h1.uid⟩
+
+theorem Rel.stable {a b : NodeCtx} (h : Rel a b) : Stable a b := by
+  unfold Rel at h
+  exact ⟨by rw [h], by rw [h], by rw [h], by rw [h]⟩
+
 theorem addDom_node (R : RParser) (w : WState) (base : List NodeCtx) (cx : NodeCtx) (ext : List NodeCtx) (c : List Node)
     (t : TypeId) (q q' : Nat) (tc : TypeId) (ra : Option Attrs) (a : Attrs) (tag : String) (attrs : List (String × List Char))
     (r : TagRule) (dkids : List DNode) (kids : List Node) (qe : Nat) (ptag : String) (prevBr : Bool)
@@ -110,7 +125,7 @@ theorem addDom_node (R : RParser) (w : WState) (base : List NodeCtx) (cx : NodeC
         (newCtx R.P tc ra r.preserveWs cx.opts w.st.fresh) [] [] →
       ∃ w2 N' ext', addAll R.P tag dkids false w1 = .ok w2 ∧
         Inv R.P.S w2 (base ++ [{ cx with content := c, mtch := some q' }]) N' ext' kids ∧
-        Plain R.P.S N' tc qe ∧ Rel (newCtx R.P tc ra r.preserveWs cx.opts w.st.fresh) N')
+        Plain R.P.S N' tc qe ∧ Stable (newCtx R.P tc ra r.preserveWs cx.opts w.st.fresh) N')
     (hve : (R.P.S.dfa tc).validEnd qe = true)
     (hlast : lastOk (wsOptionsFor (R.P.wsPre tc) r.preserveWs cx.opts) kids = true) (hnorm : fnorm kids = true) :
     ∃ w3 ext3, addDom R.P ptag prevBr (.elem tag [] (candsFrom tag attrs R.sel 0) dkids) w = .ok w3 ∧
@@ -118,7 +133,7 @@ theorem addDom_node (R : RParser) (w : WState) (base : List NodeCtx) (cx : NodeC
   obtain ⟨m, hmt, hmr, hma, hmk⟩ := firstRule_matchTag R tag attrs r ra hf w.stack
   have hinv := afterEnter_inv R.P w base cx ext c q' tc ra r.preserveWs (.enter tc ra r.preserveWs) hi
   obtain ⟨w2, N', ext', hall, hi2, hp2, hrel⟩ := hkids _ hinv.1
-  have huid : N'.uid = w.st.fresh := by rw [hrel]; rfl
+  have huid : N'.uid = w.st.fresh := by rw [hrel.uid]; rfl
   obtain ⟨w3, hclose, hn3, ho3, _⟩ := ruleClose_sync R.P w2 _ N' ext' hi2.nodes hi2.open_
     (fun x hx => by have := hi2.below x hx; simp; omega)
   have hcons : m.rule.consuming = true := by
@@ -136,9 +151,9 @@ theorem addDom_node (R : RParser) (w : WState) (base : List NodeCtx) (cx : NodeC
   · have hfin : ({ N' with content := kids } : NodeCtx).finishNode R.P.S false tc = .ok (.elem tc a [] kids) := by
       refine finishNode_plain R.P.S ({ N' with content := kids } : NodeCtx) tc qe a hp2.mtch hp2.ty hve ?_ hp2.marks hnl ?_ hnorm
       · show computeAttrs _ (N'.attrs.getD []) = _
-        rw [hrel]; exact ha
+        rw [hrel.attrs]; exact ha
       · show lastOk N'.opts kids = true
-        rw [hrel]; exact hlast
+        rw [hrel.opts]; exact hlast
     have hset := settles_cons R.P.S { cx with content := c, mtch := some q' } N' ext' kids tc _ hi2.settles hp2.ty hfin
     refine ⟨?_, ?_, hset, hi.below, ?_⟩
     · rw [hn3, hi2.nodes]; simp
